@@ -18,7 +18,7 @@
 From Coq Require Import Permutation Sorting.Sorted.
 From BR Require Import Base.Prelude Model.LRU Model.Names Model.Load Proofs.LRU_inv
   Proofs.Names_strings Proofs.Names_roundtrip Proofs.Load_add Proofs.Load_loop Proofs.Load_scan
-  Proofs.Load_main Bridge.Bridge_LRU Bridge.Bridge_Names.
+  Proofs.Load_main Proofs.Load_prov Bridge.Bridge_LRU Bridge.Bridge_Names.
 Open Scope Z_scope.
 Open Scope list_scope.
 
@@ -135,6 +135,16 @@ Theorem C09_content :
         size (sf_item x) = match p_size (s_parsed x) with Some n => n | None => f_size (s_file x) end) survivors.
 Proof. exact survivors_content. Qed.
 Print Assumptions C09_content.
+
+(* Unchanged content: start-up never invents or alters a file.  Every file the scan reports — in
+   particular every survivor (C09_content: survivors are among them) — has the size, access time
+   and content of a file of the original directory whose name it extends (by nothing for
+   current-layout files, by the migration suffix for legacy files).  Holds for any directory on
+   which the scan succeeds. *)
+Theorem C09_unchanged_content :
+  forall t files, scanned t = Ok files -> from_orig (tree_files t) (map s_file files).
+Proof. exact scanned_provenance. Qed.
+Print Assumptions C09_unchanged_content.
 
 (* The accounting matches the directory: the index invariant of C03 holds, nothing is reserved or
    queued, the accounted size is the sum of the 4 KiB-rounded sizes of the indexed entries and at
